@@ -322,8 +322,25 @@ func runHTTP(c httpCase) (r pbt.Result) {
 	out := rec.Body.Bytes()
 	if !grpcweb {
 		// Twirp-style
+		if len(c.Msgs) >= 2 {
+			// a Twirp response carries one message: a handler that sends a second one must be refused, and the
+			// call must not be answered with a success that holds only part of what the handler sent
+			r.Label("twirp_second_message")
+			if sendErrs == 0 {
+				r.Failf("twirp accepted a second response message")
+				return
+			}
+			if res.StatusCode == 200 {
+				r.Failf("twirp answered success although the handler's messages could not all be carried")
+				return
+			}
+			r.NonTrivial = true
+			kb, _ := json.Marshal(c)
+			r.Key = string(kb)
+			return
+		}
 		if sendErrs > 0 {
-			r.Failf("harness: twirp case with more than one message")
+			r.Failf("harness: a single twirp response message was refused")
 			return
 		}
 		if !isErr {
@@ -549,8 +566,10 @@ func genHTTP() *rapid.Generator[httpCase] {
 		n := 1
 		if grpcweb {
 			n = rapid.IntRange(0, 5).Draw(t, "nmsgs")
-		} else if rapid.IntRange(0, 4).Draw(t, "nomsg") == 0 {
+		} else if k := rapid.IntRange(0, 5).Draw(t, "nomsg"); k == 0 {
 			n = 0
+		} else if k == 1 {
+			n = 2 // one more than a Twirp response can carry
 		}
 		for i := 0; i < n; i++ {
 			c.Msgs = append(c.Msgs, rapid.SliceOfN(rapid.Byte(), 0, 50).Draw(t, "msg"))
